@@ -3,6 +3,31 @@
 #[derive(Clone, Debug)]
 pub struct Rng {
     s: [u64; 4],
+    /// running fingerprint of every value handed out (after range reduction): two generators that
+    /// handed out the same values generated the same inputs
+    fp: u64,
+}
+
+thread_local! {
+    static CASE_FP: std::cell::Cell<u64> = const { std::cell::Cell::new(0) };
+}
+
+/// Content fingerprint of a case = combination of the fingerprints of all generators dropped since the
+/// last `reset_case_fp()` (used for evidence `distinct_nontrivial` where a case is pure generated input).
+pub fn reset_case_fp() {
+    CASE_FP.with(|c| c.set(0));
+}
+pub fn take_case_fp() -> u64 {
+    CASE_FP.with(|c| c.replace(0))
+}
+
+impl Drop for Rng {
+    fn drop(&mut self) {
+        let f = self.fp;
+        if f != 0 {
+            let _ = CASE_FP.try_with(|c| c.set(c.get().wrapping_add(f.wrapping_mul(0x9e3779b97f4a7c15) | 1)));
+        }
+    }
 }
 
 pub fn splitmix64(x: &mut u64) -> u64 {
@@ -22,7 +47,11 @@ impl Rng {
             splitmix64(&mut x),
             splitmix64(&mut x),
         ];
-        Rng { s }
+        Rng { s, fp: 0 }
+    }
+    #[inline]
+    fn fold(&mut self, v: u64) {
+        self.fp = (self.fp ^ v).wrapping_mul(0x0000_0100_0000_01b3).rotate_left(29) ^ 0x5bd1e995;
     }
     /// Independent stream for (seed, a, b, c).
     pub fn derive(seed: u64, a: u64, b: u64, c: u64) -> Self {
@@ -35,6 +64,12 @@ impl Rng {
         Rng::new(h)
     }
     pub fn next(&mut self) -> u64 {
+        let r = self.raw();
+        self.fold(r);
+        r
+    }
+    #[inline]
+    fn raw(&mut self) -> u64 {
         let r = self.s[1].wrapping_mul(5).rotate_left(7).wrapping_mul(9);
         let t = self.s[1] << 17;
         self.s[2] ^= self.s[0];
@@ -48,7 +83,9 @@ impl Rng {
     /// Uniform in [0, n) (n > 0).
     pub fn below(&mut self, n: u64) -> u64 {
         debug_assert!(n > 0);
-        ((self.next() as u128 * n as u128) >> 64) as u64
+        let v = ((self.raw() as u128 * n as u128) >> 64) as u64;
+        self.fold(v);
+        v
     }
     pub fn range(&mut self, lo: u64, hi_incl: u64) -> u64 {
         lo + self.below(hi_incl - lo + 1)
@@ -57,7 +94,9 @@ impl Rng {
         self.below(den) < num
     }
     pub fn bool(&mut self) -> bool {
-        self.next() & 1 == 1
+        let b = self.raw() & 1;
+        self.fold(b);
+        b == 1
     }
     pub fn pick<'a, T>(&mut self, xs: &'a [T]) -> &'a T {
         &xs[self.below(xs.len() as u64) as usize]
